@@ -217,9 +217,25 @@ pub fn deadline_strategy(with_modify: bool) -> BoxedStrategy<Case> {
     ];
     // a probe: position the clock relative to a delivery's deadline, then look at once
     let probe_pair = (0u16..=65535, probe, prop_oneof![Just(1i32), Just(10)]).prop_map(move |(d, delta_us, max)| vec![Op::GoTo { s: s0, d, delta_us }, Op::Pull { s: s0, max, ri: true, a: false }]);
+    // two hand-outs 1-4 ms apart (their deadlines are 2-8 ms apart), the clock put between the
+    // two deadlines, and a request in that gap
+    let close_pair = (1u64..5, prop_oneof![Just(500i64), Just(1_000), Just(1_500)], any::<bool>()).prop_map(move |(gap, delta_us, with_pub)| {
+        let mut v = vec![
+            Op::Publish { t: t0, n: 2, payload: Payload::plain(), a: false },
+            Op::Pull { s: s0, max: 1, ri: true, a: false },
+            Op::Advance { ms: gap },
+            Op::Pull { s: s0, max: 1, ri: true, a: false },
+            Op::GoToActual { s: s0, back: 1, delta_us },
+        ];
+        v.push(if with_pub { Op::Publish { t: t0, n: 1, payload: Payload::plain(), a: false } } else { Op::Pull { s: s0, max: 10, ri: true, a: false } });
+        v.push(Op::Advance { ms: 120 });
+        v.push(Op::Pull { s: s0, max: 10, ri: true, a: false });
+        v
+    });
     let steps = prop_oneof![
         30 => step.prop_map(|o| vec![o]),
         8 => probe_pair,
+        2 => close_pair,
     ];
     (any::<u64>(), arb_phase(), dl, vec(steps, 4..26), 0u8..12)
         .prop_map(move |(sched_seed, phase_us, dl, body, jump)| {
@@ -238,6 +254,48 @@ pub fn deadline_strategy(with_modify: bool) -> BoxedStrategy<Case> {
                 Op::Pull { s: s0, max: 1, ri: true, a: false },
             ]);
             ops.extend(body);
+            Case { sched_seed, phase_us, fanout_seed: 0, points: vec![], ops }
+        })
+        .boxed()
+}
+
+/// C16, second stage: consumers that receive and go away.
+pub fn c16_abandon_strategy() -> BoxedStrategy<Case> {
+    let s0 = S { p: 0, i: 0 };
+    let t0 = T { p: 0, i: 0 };
+    let pull = move |max: i32| Op::Pull { s: s0, max, ri: true, a: false };
+    let step = prop_oneof![
+        4 => (1u8..4).prop_map(move |n| vec![Op::Publish { t: t0, n, payload: Payload::plain(), a: false }]),
+        4 => prop_oneof![Just(1i32), Just(2), Just(10)].prop_map(move |m| vec![pull(m)]),
+        // a consumer whose call is dropped after k polls, or cancelled while it waits
+        3 => (0u8..5, any::<bool>(), prop_oneof![Just(1i32), Just(3)], any::<bool>()).prop_map(move |(k, sb, max, ri)| vec![Op::PollDrop { op: Box::new(Op::Pull { s: s0, max, ri, a: false }), k, settle_between: sb }]),
+        2 => (0u8..3).prop_map(move |c| vec![Op::Pull { s: s0, max: 2, ri: false, a: true }, Op::Tick { n: 2 }, Op::Abort { c }]),
+        1 => Just(vec![Op::StreamOpen { s: s0, max_out: 10 }, Op::Settle, Op::StreamDrop { k: 0 }]),
+        // hand-outs in quick succession, then the clock between their deadlines and a request there
+        3 => (1u64..5, prop_oneof![Just(500i64), Just(1_000), Just(1_500)], 0u8..3).prop_map(move |(gap, delta_us, what)| {
+            let mut v = vec![pull(1), Op::Advance { ms: gap }, pull(1), Op::GoToActual { s: s0, back: 1, delta_us }];
+            v.push(match what {
+                0 => Op::Publish { t: t0, n: 1, payload: Payload::plain(), a: false },
+                1 => Op::GetSub { s: s0, a: false },
+                _ => pull(10),
+            });
+            v.push(Op::Advance { ms: 150 });
+            v.push(pull(10));
+            v
+        }),
+        3 => prop_oneof![Just(1u64), Just(3), Just(100), Just(5_000), Just(10_200), Just(12_000)].prop_map(|ms| vec![Op::Advance { ms }]),
+        2 => (0u16..=65535, prop_oneof![Just(-1_000i64), Just(101_500), Just(150_000)]).prop_map(move |(d, delta_us)| vec![Op::GoTo { s: s0, d, delta_us }, pull(10)]),
+        2 => Just(vec![Op::PullAll { s: s0 }]),
+        1 => Just(vec![Op::Settle]),
+    ];
+    (any::<u64>(), arb_phase(), vec(step, 3..14))
+        .prop_map(move |(sched_seed, phase_us, body)| {
+            let mut ops = vec![
+                Op::CreateTopic { t: t0, a: false },
+                Op::CreateSub { s: s0, t: t0, dl: 10, push: 0, a: false },
+                Op::Publish { t: t0, n: 3, payload: Payload::plain(), a: false },
+            ];
+            ops.extend(body.into_iter().flatten());
             Case { sched_seed, phase_us, fanout_seed: 0, points: vec![], ops }
         })
         .boxed()
@@ -625,9 +683,27 @@ pub fn c15_strategy(big: bool) -> BoxedStrategy<Case> {
         1 => (0u8..3).prop_map(|c| Op::Abort { c }),
         1 => Just(Op::Publish { t: t0, n: 0, payload: Payload::plain(), a: false }),
     ];
-    (any::<u64>(), backlog, vec(step, 2..10))
-        .prop_map(move |(sched_seed, backlog, body)| {
+    // a waiting Pull that its caller gives up, then another waiting Pull and a publish: the
+    // second one must be served (nothing of the first may linger and take the message)
+    let given_up = (mx.clone(), mx.clone(), any::<bool>(), any::<bool>(), 1u8..4).prop_map(move |(m1, m2, settle1, settle2, n)| {
+        vec![
+            Op::Pull { s: s0, max: m1, ri: false, a: true },
+            if settle1 { Op::Settle } else { Op::Tick { n: 3 } },
+            Op::Abort { c: 0 },
+            Op::Settle,
+            Op::Pull { s: s0, max: m2, ri: false, a: true },
+            if settle2 { Op::Settle } else { Op::Tick { n: 2 } },
+            Op::Publish { t: t0, n, payload: Payload::plain(), a: false },
+            Op::Settle,
+        ]
+    });
+    let backlog = prop_oneof![3 => backlog, 1 => Just(0u32)];
+    let lead = prop_oneof![4 => Just(Vec::new()), 1 => given_up];
+    (any::<u64>(), backlog, lead, vec(step, 2..10))
+        .prop_map(move |(sched_seed, backlog, lead, body)| {
             let mut ops = vec![Op::CreateTopic { t: t0, a: false }, Op::CreateSub { s: s0, t: t0, dl: 10, push: 0, a: false }];
+            let backlog = if lead.is_empty() { backlog } else { 0 };
+            let body: Vec<Op> = lead.into_iter().chain(body).collect();
             let mut left = backlog;
             while left > 0 {
                 let n = left.min(255);
@@ -923,7 +999,22 @@ pub fn run_worker(ctx: &WorkerCtx) -> WorkerOut {
             }
         }
         "C14" => crate::push::push_check(ctx, &mut out, if t == Tier::Thorough { 3 } else { 1 }),
-        "C16" => crate::c16::c16_check(ctx, &mut out),
+        "C16" => {
+            crate::c16::c16_check(ctx, &mut out);
+            // "messages handed to an abandoned consumer are redelivered after their deadline":
+            // histories in which every consumer goes away without acknowledging (its call is
+            // dropped after k polls, aborted, or simply never followed by an ack), with hand-outs
+            // in quick succession and probes between and after the deadlines; what the model's
+            // delivery rules report on such a history is a C16 violation
+            if out.failure.is_none() {
+                let nt = |_: &Case, r: &Report| r.feat.expiry_redeliveries > 0 && r.feat.abort_of_consumer;
+                let extra = |_: &Case, _: &crate::trace::Trace, r: &Report| -> Vec<Violation> {
+                    const RULES: &[&str] = &["available_not_delivered", "available_not_obtainable", "never_delivered", "stats_mismatch", "delivered_while_leased", "ack_id_reused"];
+                    r.violations.iter().filter(|v| RULES.contains(&v.rule.as_str()) && !v.props.iter().any(|p| p == "C16")).map(|v| Violation { rule: v.rule.clone(), props: vec!["C16".into()], at: v.at, detail: v.detail.clone() }).collect()
+                };
+                run_sim_stage(ctx, SimStage { name: "abandoned_consumers", strategy: c16_abandon_strategy(), cfg: sim_cfg(true), cases: ctx.share(scale(t, 6_000, 100_000)), nontrivial: &nt, classes: &c04_classes, extra: Some(&extra) }, &mut out);
+            }
+        }
         "C17" => {
             let nt = |c: &Case, _: &Report| crate::c17::has_mixed_rejection(c);
             run_sim_stage(ctx, SimStage { name: "malformed", strategy: crate::c17::c17_strategy(), cfg: sim_cfg(false), cases: ctx.share(scale(t, 24_000, 200_000)), nontrivial: &nt, classes: &crate::c17::c17_classes, extra: Some(&crate::c17::c17_extra) }, &mut out);
@@ -978,6 +1069,14 @@ pub fn replay_input(prop: &str, input: &serde_json::Value) -> Result<Vec<Violati
             let mut vs = rep.violations;
             if prop == "C17" {
                 vs.extend(crate::c17::c17_extra(&case, &tr, &crate::model::Report::default()));
+            }
+            if prop == "C16" && input.get("stage").and_then(|s| s.as_str()) == Some("abandoned_consumers") {
+                // in that stage every consumer is an abandoned one: the delivery rules count for C16
+                for v in vs.iter_mut() {
+                    if !v.props.iter().any(|p| p == "C16") {
+                        v.props.push("C16".into());
+                    }
+                }
             }
             Ok(vs)
         }
